@@ -67,3 +67,30 @@ package config
 //@   arith wraps
 //@   ensures[nonnegative-if-configured-so] c.PeerQueueSize >= 0 && c.PeerQueueSize < 1<<62 && c.WorkerCount < 1<<62 ==> result >= 0
 //@   modifies nothing
+
+// ---- C27: config reloads apply exactly the acceptable changes.
+// Ghosts: how many calls were made through function values (the reload callbacks),
+// and the result of the most recent newFileConfig (startup's own acceptance test).
+//@ ghost fnCallsT(int) int
+//@ ghost loadN() int
+//@ ghost loadedCfg() ref
+
+// newFileConfig's documented three-way result: (nil, err) fatal, (cfg, err) warnings only, (cfg, nil) clean.
+//@ contract config.newFileConfig props C27 noframe
+//@   ghostupdate loadN(), loadedCfg() :: loadN() == old(loadN()) + 1 && toInt(loadedCfg()) == toInt(result0)
+//@   ensures[nil-config-means-error] result0 == nil ==> result1 != nil
+//@   ensures[new-object] result0 != nil ==> isFresh(result0)
+
+//@ contract config.(*fileConfig).Reload props C27 localcalls
+//@   requires f != nil
+//@   let attempted = loadN() == old(loadN()) + 1
+//@   ensures[acceptable-change-is-applied] loadN() == old(loadN()) + 1 && cfg != nil && toInt(loadedCfg()) == toInt(cfg) && (old(f.mainHash) != cfg.mainHash || old(f.rulesHash) != cfg.rulesHash) ==> f.mainHash == cfg.mainHash && f.rulesHash == cfg.rulesHash && f.mainConfig == cfg.mainConfig && f.rulesConfig == cfg.rulesConfig && callsOf(ConfigReloadCallback) == old(callsOf(ConfigReloadCallback)) + len(f.callbacks)
+//@   ensures[rejected-or-unchanged-leaves-everything] !(loadN() == old(loadN()) + 1 && cfg != nil && toInt(loadedCfg()) == toInt(cfg) && (old(f.mainHash) != cfg.mainHash || old(f.rulesHash) != cfg.rulesHash)) ==> callsOf(ConfigReloadCallback) == old(callsOf(ConfigReloadCallback)) && f.mainHash == old(f.mainHash) && f.rulesHash == old(f.rulesHash) && f.mainConfig == old(f.mainConfig) && f.rulesConfig == old(f.rulesConfig)
+//@   loop 1 invariant callsOf(ConfigReloadCallback) == old(callsOf(ConfigReloadCallback))
+//@   loop 2 invariant callsOf(ConfigReloadCallback) == old(callsOf(ConfigReloadCallback)) + iter
+//@   modifies all(fnCallsT), loadN(), loadedCfg(), f.mainConfig, f.mainHash, f.rulesConfig, f.rulesHash
+
+// Reading and parsing the files, and building a new fileConfig from them, allocate new
+// objects but do not modify existing ones, load no other fileConfig and run no reload
+// callbacks (assumed frames: plain file I/O, decoding and validation).
+//@ assume config.newConfigAndRules
